@@ -246,6 +246,12 @@ def rule_snapshot(ctx: Ctx) -> None:
             if ok and not any(_handler_types(h) & BROAD):
                 ok, why = False, "the handler in PipeFunc.__call__ does not catch Exception"
     ctx.add("4-snapshot", call, uc, ok, why, key="capture")
+    # nothing in the handler can replace the user's exception before it is re-raised: warnings.warn raises under
+    # `-W error` / filterwarnings=error (the caller then sees a Warning, and the snapshot line is never reached)
+    if tr is not None and tr.handlers:
+        risky = [c for st in tr.handlers[0].body for c in ast.walk(st) if isinstance(c, ast.Call) and dotted(c.func) in ("warnings.warn", "warn", "warnings.warn_explicit")]
+        ctx.add("4-snapshot", call, risky[0] if risky else tr.handlers[0], not risky, "the handler only prints, records and re-raises" if not risky else
+                f"`{norm(risky[0])[:50]}` in the failure handler raises when warnings are errors: the caller receives the Warning instead of the user function's exception and no snapshot is recorded", key="handler-cannot-raise")
     _snapshot_rest(ctx)
 
 
